@@ -10,6 +10,7 @@ import (
 	_ "verif/harness/drivers/c15custom"
 	_ "verif/harness/drivers/c16lua"
 	_ "verif/harness/drivers/c17advdeploy"
+	_ "verif/harness/drivers/c19iso"
 	_ "verif/harness/drivers/c20conv"
 	_ "verif/harness/drivers/compose"
 	_ "verif/harness/drivers/e1"
